@@ -21,17 +21,18 @@ PROP = {
                   "watchdog and the probe count is bounded by 100. Exploration: no absence claim; the window-edge "
                   "arithmetic is covered by construction and the reached offsets are measured on the reader.",
     "level_note": "White-box: drives the unexported qLogFile/qLogReader and reads qLogFile.position/bufferStart for "
-                  "coverage accounting only (never for the verdict). After a FAILED seek the statement leaves the "
-                  "position open: the check demands only that reads then return whole stored lines in order down to "
-                  "the oldest one. For a reader-level seek of a value later than a file's last entry the documented "
-                  "'position at the start' and 'position on the newest older entry' are both accepted, as is one of "
+                  "coverage accounting only (never for the verdict). 'Without mis-positioning subsequent reads' is read as: "
+                  "a seek that reports an error leaves the reader where it was (reads continue from the previous "
+                  "position); nothing is demanded of a reader that was never positioned except that it returns "
+                  "whole stored lines in order. For a reader-level seek of a value later than a file's last entry the "
+                  "documented 'position at the start' and 'position on the newest older entry' are both accepted, as is one of "
                   "the three error classes. Lines of 16384 bytes and more, files without a final line break, and "
                   "unparsable timestamps are outside the property's domain and not generated. Trusts the time "
                   "package for formatting/parsing RFC 3339 timestamps and the OS for regular-file reads.",
     "tests": [
-        ("TestVFC20FileReverse", (800, 6000)),
-        ("TestVFC20FileSeek", (500, 3000)),
-        ("TestVFC20Reader", (1000, 6000)),
+        ("TestVFC20FileReverse", (800, 5000)),
+        ("TestVFC20FileSeek", (500, 2500)),
+        ("TestVFC20Reader", (1000, 5000)),
     ],
     "plain": ["TestVFC20Regress"],
     "shards": (4, 16),
